@@ -633,7 +633,8 @@ func (w *worker[T, JobType]) NumIdleWorkers() int {
 func (w *worker[T, JobType]) Pause() error {
 	switch s := w.status.Load(); s {
 	case running:
-		w.status.Store(paused)
+		// a Stop that completed since the load must not be turned back into a pause
+		w.status.CompareAndSwap(running, paused)
 	case paused, stopped:
 		return nil
 	default:
@@ -765,7 +766,15 @@ func (w *worker[T, JobType]) Resume() error {
 		return ErrRunningWorker
 	}
 
-	w.status.Store(running)
+	// Only a paused worker is resumed. A Stop that completes between the checks above and this point
+	// (the context listener's, for instance) must not be overwritten: the worker would report Running
+	// with its channels and pool gone.
+	if !w.status.CompareAndSwap(paused, running) {
+		if w.IsRunning() {
+			return ErrRunningWorker
+		}
+		return ErrNotRunningWorker
+	}
 	w.notifyToPullNextJobs()
 
 	return nil
